@@ -61,12 +61,12 @@ def connClauses (cfg : Cfg) (w : Wire) (o : CObs) : List (String × Bool) :=
   [ -- however the handshake ends, whole frames were consumed from the new connection (else the loss is reported)
     ("handshake_whole_frames_consumed",
       !o.res.isNormal || (takeFrames w.fs o.consumed).isSome || drainExcC cfg w o),
-    -- ConnectionLost only when the peer is gone and every byte was taken; it leaves the client disconnected; any
-    -- other outcome leaves it connected (to the new connection)
+    -- ConnectionLost only when the peer is gone and every byte was taken; it leaves the client disconnected; the
+    -- client is connected afterwards exactly when `connect()` returned
     ("lost_means_disconnected",
       if o.res == .lost then
         !o.connected && w.e != .idle && o.consumed == w.pre.total && w.fs.all (skipF cfg w.pre.sub hsArgs)
-      else !o.res.isNormal || o.connected),
+      else !o.res.isNormal || (o.connected == (o.res == .joined))),
     ("documented_outcomes_only",
       o.res != .crash && o.res != .notConnected && (o.res != .blocked || w.e == .idle)) ]
 
@@ -79,16 +79,17 @@ def sendFailOk (p : Pre) (o : CObs) : Bool :=
 /-- the client is gone from its connection -/
 def Pre.closed (p : Pre) (sub : Sub) : Pre := { p with fs := [], tail := [], e := .fin, connected := false, sub := sub }
 
-/-- the pre-state after a `connect()`, from what it was seen to do.  `some none`: the judgement of the history ends
-here (timeout / decode error / hang during the handshake: what the client is subscribed to is not defined by the
-property); `none`: the position is inside a frame. -/
+/-- the pre-state after a `connect()`, from what it was seen to do.  joined: the position on the new connection,
+subscribed to nothing.  `ConnectionLost` / `AcknowledgementTimeout` / a decode error escaping from the handshake: the
+client is disconnected from a closed socket, its sets are as they were (empty if `connect()` disconnected first).
+`some none`: the judgement of the history ends here (the call hung or crashed); `none`: the position is inside a frame. -/
 def connNext (p : Pre) (w : Wire) (o : CObs) : Option (Option Pre) :=
-  if o.res == .joined || o.res == .lost then
-    match w.pre.advance ⟨if o.res == .lost then .lost else .none, o.consumed, o.connected⟩ with
-    | some p' =>
-      -- joined: subscribed to nothing; lost: the sets are as they were (empty if `connect()` disconnected first)
-      some (some (if o.res == .joined then p' else { p' with sub := if p.connected then ⟨false, []⟩ else p.sub }))
+  if o.res == .joined then
+    match w.pre.advance ⟨.none, o.consumed, o.connected⟩ with
+    | some p' => some (some p')
     | none => none
+  else if o.res.isNormal || o.res == .lost then
+    some (some (w.pre.closed (if p.connected then ⟨false, []⟩ else p.sub)))
   else some none
 
 /-- The Spec over a whole history of one client object, from pre-state `p` (for a new object: `Pre.never`). -/
